@@ -1,7 +1,6 @@
-(* C11 proofs, part 5: every history outside the one surviving finding class reads back what it wrote
-   (history_readback_l), that class breaks it on the model (history_refuted_cached_pointer_l), the repaired
-   classes no longer do (the historical witnesses now satisfy the oracle), and the lemmas packaged for
-   Props/C11.v. *)
+(* C11 proofs, part 5: every well-formed history reads back what it wrote (history_readback_l, no finding class
+   is left to exclude), the witnesses of the four repaired classes now satisfy the oracle on the model, and
+   the lemmas packaged for Props/C11.v. *)
 From Coq Require Import ZArith List Bool Lia ZifyBool.
 From TV Require Import Lib.MachInt Lib.MachIntFacts Gen.Toast Model.Toast Model.Utf8 Model.ToastSql
   Proof.ToastCodec Proof.ToastStore Proof.ToastSqlBase Proof.ToastSqlStep.
@@ -36,25 +35,6 @@ Qed.
 
 Lemma run_from_length : forall ops st, length (snd (run_from ty pk st ops)) = length ops.
 Proof. induction ops as [|o t IH]; intros st; [reflexivity|]. rewrite run_from_cons. cbn [snd length]. now rewrite IH. Qed.
-
-(* the class-4 flag never goes down *)
-Lemma step_fake_mono st o : fake st = true -> fake (fst (step ty pk st o)) = true.
-Proof.
-  intros H. unfold step. destruct (dead st); [exact H|].
-  destruct o; cbn [fst].
-  - unfold step_ins. destruct (snd _); [destruct (_ || _)|]; cbn [fst fake]; now rewrite H.
-  - unfold step_upd. destruct (find_k k (rows st)); [|exact H].
-    destruct (_ && pk); [exact H|]. destruct (snd _); exact H.
-  - unfold step_del. destruct (find_k k (rows st)); exact H.
-  - exact H.
-  - unfold step_query. destruct (all_ok _); [exact H|]. destruct (existsb is_unknown _); [exact H|].
-    destruct (existsb is_abort _); [exact H|]. destruct (existsb is_panic _); exact H.
-  - exact H.
-Qed.
-Lemma run_fake_mono : forall ops st, fake st = true -> fake (fst (run_from ty pk st ops)) = true.
-Proof.
-  induction ops as [|o t IH]; intros st H; [exact H|]. rewrite run_from_cons. cbn [fst]. apply IH. now apply step_fake_mono.
-Qed.
 
 (* ---------------------------------------------------------------- well-formed histories *)
 Lemma existsb_false_forall {A} (f : A -> bool) l : existsb f l = false -> forall x, In x l -> f x = false.
@@ -98,33 +78,30 @@ Lemma run_ok : forall ops st e,
   Inv ty st e -> dead st = false -> forallb (op_ok ty) ops = true -> NoDup (ins_keys ops) ->
   (forall k, In k (ins_keys ops) -> ~ In k (map r_k (rows st))) ->
   next_rid st + Z.of_nat (length ops) <= 2 ^ 48 ->
-  fake (fst (run_from ty pk st ops)) = false ->
   spec_from e (combine ops (snd (run_from ty pk st ops))) = true.
 Proof.
-  induction ops as [|o t IH]; intros st e Hi Hd Hc Hn Hfresh Hrid Hfake; [reflexivity|].
-  rewrite run_from_cons in Hfake |- *. cbn [fst snd] in Hfake |- *. cbn [combine].
+  induction ops as [|o t IH]; intros st e Hi Hd Hc Hn Hfresh Hrid; [reflexivity|].
+  rewrite run_from_cons. cbn [fst snd]. cbn [combine].
   rewrite spec_from_step.
   cbn [forallb] in Hc. apply andb_true_iff in Hc as [Hco Hct].
   cbn [length] in Hrid. rewrite Nat2Z.inj_succ in Hrid. pose proof (inv_rid ty st e Hi) as Hr1.
   destruct (step ty pk st o) as [st1 ob] eqn:Es. cbn [fst snd] in *.
-  assert (fake st1 = false) as Hf1.
-  { destruct (fake st1) eqn:E; [|reflexivity]. rewrite (run_fake_mono t st1 E) in Hfake. discriminate. }
   unfold step in Es. rewrite Hd in Es.
   destruct o as [p k v|p k v|k| |s|]; cbn [op_ok] in Hco.
   - (* INSERT *)
     cbn [ins_keys] in Hn, Hfresh. inversion Hn as [|? ? Hk Hnt]; subst.
-    destruct (step_ins_ok ty st e p k v st1 ob Hi Hco (Hfresh k (or_introl eq_refl)) ltac:(lia) Es Hf1)
+    destruct (step_ins_ok ty st e p k v st1 ob Hi Hco (Hfresh k (or_introl eq_refl)) ltac:(lia) Es)
       as (e' & Hs & Hi' & Hd' & Hr' & Hkeys).
     rewrite Hs. apply IH; auto; [congruence | | lia].
     intros k' Hk' Hin. destruct (Hkeys k' Hin) as [->|Hold]; [contradiction|].
     eapply Hfresh; [right; exact Hk' | exact Hold].
   - (* UPDATE *)
     cbn [ins_keys] in Hn, Hfresh.
-    destruct (step_upd_ok ty pk st e p k v st1 ob Hi Hco ltac:(lia) Es) as (e' & Hs & Hi' & Hd' & _ & Hr' & Hkeys).
+    destruct (step_upd_ok ty pk st e p k v st1 ob Hi Hco ltac:(lia) Es) as (e' & Hs & Hi' & Hd' & Hr' & Hkeys).
     rewrite Hs. apply IH; auto; [congruence | rewrite Hkeys; exact Hfresh | lia].
   - (* DELETE *)
     cbn [ins_keys] in Hn, Hfresh.
-    destruct (step_del_ok ty st e k st1 ob Hi ltac:(lia) Es) as (e' & Hs & Hi' & Hd' & _ & Hr' & Hkeys).
+    destruct (step_del_ok ty st e k st1 ob Hi ltac:(lia) Es) as (e' & Hs & Hi' & Hd' & Hr' & Hkeys).
     rewrite Hs. apply IH; auto; [congruence | | lia].
     intros k' Hk' Hin. eapply Hfresh; eauto.
   - (* reopen *)
@@ -144,11 +121,9 @@ Proof.
 Qed.
 
 Lemma history_readback_pre : forall ops,
-  wf_hist ty ops = true -> hist_class ty pk ops = 0 -> spec_hist ops (run ty pk ops) = true.
+  wf_hist ty ops = true -> spec_hist ops (run ty pk ops) = true.
 Proof.
-  intros ops Hwf Hcl. unfold wf_hist in Hwf. apply andb_true_iff in Hwf as [Hwf Hlen]. apply andb_true_iff in Hwf as [Hok Hnd].
-  unfold hist_class in Hcl.
-  destruct (fake (final ty pk ops)) eqn:El; [discriminate|].
+  intros ops Hwf. unfold wf_hist in Hwf. apply andb_true_iff in Hwf as [Hwf Hlen]. apply andb_true_iff in Hwf as [Hok Hnd].
   unfold spec_hist, run. rewrite run_from_length, Nat.eqb_refl. cbn [andb].
   apply run_ok.
   - constructor; cbn; [constructor | constructor | constructor | lia | intros ? [] | intros ? [] | intros ? ? H; discriminate H].
@@ -157,13 +132,12 @@ Proof.
   - now apply nodup_z_NoDup.
   - intros k _ [].
   - cbn [next_rid st0]. change (2 ^ 47) with 140737488355328 in Hlen. change (2 ^ 48) with 281474976710656. lia.
-  - exact El.
 Qed.
 End Main.
 
 (* ================================================================ packaged for Props/C11.v *)
 Lemma history_readback_l : forall ty pk ops,
-  wf_hist ty ops = true -> hist_class ty pk ops = 0 -> spec_hist ops (run ty pk ops) = true.
+  wf_hist ty ops = true -> spec_hist ops (run ty pk ops) = true.
 Proof. exact history_readback_pre. Qed.
 
 Lemma chunks_concat_shape_l : forall d,
@@ -196,52 +170,44 @@ Lemma readback_inline_l : forall ty m b,
   read_value ty m (SBytes b) = ROk (match ty with TBlob => VBlob b | _ => VText b end).
 Proof. intros ty m b H. cbn [read_value]. rewrite H. destruct ty; reflexivity. Qed.
 
-(* ---- the three repaired classes: their witnesses now satisfy the oracle on the model of the repaired tree *)
+(* ---- the four repaired classes (16c5acb, 170f3f6, 1b44555, cc39952): their witnesses now satisfy the oracle on
+   the model of the repaired tree *)
 Definition ops_utf8_blob : list op := [OIns PL 1 (VBlob (repeat 97 1001)); OQuery 0].
 Definition ops_fake_pointer : list op := [OIns PL 1 (VBlob (254 :: repeat 0 16)); OQuery 0].
 Definition ops_lost_update : list op :=
   [OIns PL 1 (VText [97]); OIns PL 2 (VText (repeat 98 1001)); OUpd PL 1 (VText (repeat 99 1001));
    OQuery 0; OUpd PL 2 (VText (repeat 100 1001)); OQuery 0].
-
-Lemma historical_utf8_blob_l :
-  hist_class TBlob false ops_utf8_blob = 0 /\
-  run TBlob false ops_utf8_blob = [SWrote true; SRows [(1, VBlob (repeat 97 1001))]] /\
-  spec_hist ops_utf8_blob (run TBlob false ops_utf8_blob) = true.
-Proof. vm_compute. repeat split; reflexivity. Qed.
-
-Lemma historical_fake_pointer_l :
-  hist_class TBlob false ops_fake_pointer = 0 /\
-  run TBlob false ops_fake_pointer = [SWrote true; SRows [(1, VBlob (254 :: repeat 0 16))]] /\
-  spec_hist ops_fake_pointer (run TBlob false ops_fake_pointer) = true.
-Proof. vm_compute. repeat split; reflexivity. Qed.
-
-Lemma historical_lost_update_l :
-  hist_class TText false ops_lost_update = 0 /\
-  run TText false ops_lost_update =
-    [SWrote true; SWrote true; SWrote true; SRows [(1, VText (repeat 99 1001)); (2, VText (repeat 98 1001))];
-     SWrote true; SRows [(1, VText (repeat 99 1001)); (2, VText (repeat 100 1001))]] /\
-  spec_hist ops_lost_update (run TText false ops_lost_update) = true.
-Proof. vm_compute. repeat split; reflexivity. Qed.
-
-(* ---- the class that survives: a re-executed prepared INSERT (insert_cached) stores the 17 pointer-like bytes
-   inline; SELECT then detoasts them (here: size field 0, the value comes back as the empty blob) *)
 Definition ops_cached_pointer : list op :=
-  [OIns PS 1 (VBlob [0]); OIns PS 2 (VBlob (254 :: repeat 0 16)); OQuery 0].
-Lemma history_refuted_cached_pointer_l :
-  wf_hist TBlob ops_cached_pointer = true /\ hist_class TBlob false ops_cached_pointer = 4 /\
-  run TBlob false ops_cached_pointer = [SWrote true; SWrote true; SRows [(1, VBlob [0]); (2, VBlob [])]] /\
-  spec_hist ops_cached_pointer (run TBlob false ops_cached_pointer) = false.
+  [OIns PS 1 (VBlob [0]); OIns PS 2 (VBlob (254 :: repeat 0 16)); OIns PS 3 (VBlob (repeat 255 1001)); OQuery 0].
+
+Lemma former_classes_repaired_l :
+  (* 1: a BLOB above the threshold that is valid UTF-8 came back as TEXT *)
+  (run TBlob false ops_utf8_blob = [SWrote true; SRows [(1, VBlob (repeat 97 1001))]] /\
+   spec_hist ops_utf8_blob (run TBlob false ops_utf8_blob) = true) /\
+  (* 2: a 17-byte blob led by 0xFE was detoasted on SELECT *)
+  (run TBlob false ops_fake_pointer = [SWrote true; SRows [(1, VBlob (254 :: repeat 0 16))]] /\
+   spec_hist ops_fake_pointer (run TBlob false ops_fake_pointer) = true) /\
+  (* 3: the UPDATE of row 2 was rejected after deleting its old chunks *)
+  (run TText false ops_lost_update =
+     [SWrote true; SWrote true; SWrote true; SRows [(1, VText (repeat 99 1001)); (2, VText (repeat 98 1001))];
+      SWrote true; SRows [(1, VText (repeat 99 1001)); (2, VText (repeat 100 1001))]] /\
+   spec_hist ops_lost_update (run TText false ops_lost_update) = true) /\
+  (* 4: a re-executed prepared INSERT stored pointer-like bytes inline (and refused large values) *)
+  (run TBlob false ops_cached_pointer =
+     [SWrote true; SWrote true; SWrote true;
+      SRows [(1, VBlob [0]); (2, VBlob (254 :: repeat 0 16)); (3, VBlob (repeat 255 1001))]] /\
+   spec_hist ops_cached_pointer (run TBlob false ops_cached_pointer) = true).
 Proof. vm_compute. repeat split; reflexivity. Qed.
 
-(* non-vacuity: a history with values on both sides of the threshold, a pointer-like blob, a BLOB that is valid
-   UTF-8, UPDATEs that used to collide, a DELETE and a reopen satisfies the hypotheses of history_readback *)
+(* non-vacuity: a history with values on both sides of the threshold, pointer-like blobs on every path, a BLOB
+   that is valid UTF-8, UPDATEs that used to collide, a DELETE, a reopen and INSERTs after it is well-formed *)
 Definition ops_example : list op :=
-  [OIns PL 1 (VBlob (repeat 97 (Z.to_nat 5000))); OIns PP 2 (VBlob (254 :: repeat 1 16)); OIns PS 3 (VBlob (repeat 98 1001));
+  [OIns PL 1 (VBlob (repeat 97 (Z.to_nat 5000))); OIns PS 2 (VBlob (254 :: repeat 1 16)); OIns PS 3 (VBlob (repeat 98 1001));
    OUpd PL 1 (VBlob (repeat 99 (Z.to_nat 9000))); OUpd PP 2 (VBlob (repeat 100 1001)); ODel 3; OReopen;
-   OIns PP 4 (VBlob (254 :: repeat 2 16)); OQuery 0].
+   OIns PS 4 (VBlob [7]); OIns PS 5 (VBlob (254 :: repeat 2 16)); OQuery 0].
 Lemma history_example_l :
-  wf_hist TBlob ops_example = true /\ hist_class TBlob false ops_example = 0 /\
+  wf_hist TBlob ops_example = true /\
   run TBlob false ops_example =
-    [SWrote true; SWrote true; SWrote true; SWrote true; SWrote true; SWrote true; SReopened true; SWrote true;
-     SRows [(1, VBlob (repeat 99 (Z.to_nat 9000))); (2, VBlob (repeat 100 1001)); (4, VBlob (254 :: repeat 2 16))]].
+    [SWrote true; SWrote true; SWrote true; SWrote true; SWrote true; SWrote true; SReopened true; SWrote true; SWrote true;
+     SRows [(1, VBlob (repeat 99 (Z.to_nat 9000))); (2, VBlob (repeat 100 1001)); (4, VBlob [7]); (5, VBlob (254 :: repeat 2 16))]].
 Proof. vm_compute. repeat split; reflexivity. Qed.
